@@ -193,7 +193,16 @@ def _variants():
         V("m-accepts-UU", replace_expr(PW, "PinWords.make_dfa_for_m", "{'U': 3, 'D': 3, 'L': 2, 'R': 2}", "{'U': 1, 'D': 3, 'L': 2, 'R': 2}"), "fire", "C16-W4"),
         V("m-dead-state-accepting", replace_expr(PW, "PinWords.make_dfa_for_m", "frozenset({0, 1, 2})", "frozenset({0, 1, 2, 3})", which=1), "fire-or-undecided", "C16-W4"),
         V("m-rejects-empty", replace_expr(PW, "PinWords.make_dfa_for_m", "frozenset({0, 1, 2})", "frozenset({1, 2})"), "fire", "C16-W4"),
+        V("pinwords-stop-at-first-non-pin", replace_stmt(PW, "PinWords.pinwords_for_basis", "res.extend(cls.perm_to_pinword_mapping(len(perm))[perm])",
+                                                    "pinwords = cls.perm_to_pinword_mapping(len(perm)).get(perm)\nif pinwords is None:\n    break\nres.extend(pinwords)"), "fire", "C16-W6"),
+        V("pinwords-first-element-only", replace_stmt(PW, "PinWords.pinwords_for_basis", "res.extend(cls.perm_to_pinword_mapping(len(perm))[perm])", "return list(cls.perm_to_pinword_mapping(len(perm))[perm])"), "fire", "C16-W6"),
+        V("basis-dfa-intersection", replace_stmt(PW, "PinWords.make_dfa_for_basis_from_pinwords", "out_dfa = out_dfa.union(out_dfa2)", "out_dfa = out_dfa.intersection(out_dfa2)"), "fire", "C16-W6"),
+        V("db-dfa-stops-early", insert_stmt(PW, "PinWords.make_dfa_for_basis_from_db", "out_dfa = out_dfa.union(out_dfa2)", "if out_dfa2.isempty():\n    break", "before"), "fire", "C16-W6"),
         # silent
+        V("pinwords-comprehension", [replace_stmt(PW, "PinWords.pinwords_for_basis", "for perm in basis: ...", "return [w for perm in basis for w in cls.perm_to_pinword_mapping(len(perm))[perm]]"),
+                                     replace_stmt(PW, "PinWords.pinwords_for_basis", "res = []", ""), replace_stmt(PW, "PinWords.pinwords_for_basis", "return res", "")], "silent"),
+        V("pinwords-augmented-add", replace_stmt(PW, "PinWords.pinwords_for_basis", "res.extend(cls.perm_to_pinword_mapping(len(perm))[perm])", "res += cls.perm_to_pinword_mapping(len(perm))[perm]"), "silent"),
+        V("basis-dfa-or-operator", replace_stmt(PW, "PinWords.make_dfa_for_basis_from_pinwords", "out_dfa = out_dfa.union(out_dfa2)", "out_dfa = out_dfa | out_dfa2"), "silent"),
         V("reformat-pinwords", reformat_only(PW), "silent"),
         V("special-and-chain", replace_stmt(PW, "PinWords.has_finite_special_simples", "alt = cls.has_finite_alternations(basis)", "alt = cls.has_finite_alternations(basis) and True"), "silent"),
         V("alternations-not-any", replace_stmt(PW, "PinWords.has_finite_alternations", "for sym in all_symmetry_sets(alt_basis): ...", "return not any((all((any((x.contains(p) for p in sym)) for x in basis)) for sym in all_symmetry_sets(alt_basis)))\n"), "silent"),
@@ -346,3 +355,123 @@ def run(ctx: Ctx) -> None:  # noqa: F811
 
 FLOORS["C16-W4"] = 1
 FLOORS["C16-W5"] = 3
+
+
+# ----------------------------------------------------------------------------- C16-W6: the basis language is the union over ALL basis elements
+
+
+def _fold_loops(f: FuncInfo):
+    """For loops of ``f`` (top level of the body) that iterate a parameter or a local derived from it by sorted/list/tuple/set."""
+    derived = set(f.params)
+    for st in f.body:
+        if isinstance(st, (ast.Assign, ast.AnnAssign)) and st.value is not None:
+            tgt = st.targets[0] if isinstance(st, ast.Assign) else st.target
+            v = st.value
+            if isinstance(tgt, ast.Name) and isinstance(v, ast.Call) and isinstance(v.func, ast.Name) and v.func.id in ("sorted", "list", "tuple", "set", "frozenset") and v.args \
+                    and isinstance(v.args[0], ast.Name) and v.args[0].id in derived:
+                derived.add(tgt.id)
+            elif isinstance(tgt, ast.Name) and isinstance(v, ast.Call) and f.cls is not None and isinstance(v.func, ast.Attribute) and isinstance(v.func.value, ast.Name) \
+                    and v.func.value.id in ("cls", "self", f.cls.name) and any(isinstance(a, ast.Name) and a.id in derived for a in v.args):
+                derived.add(tgt.id)  # e.g. pinwords = cls.pinwords_for_basis(basis)
+    out = []
+    for st in f.body:
+        if isinstance(st, ast.For):
+            it = st.iter
+            if isinstance(it, ast.Call) and isinstance(it.func, ast.Name) and it.func.id in ("sorted", "list", "tuple", "set", "frozenset") and it.args:
+                it = it.args[0]
+            if isinstance(it, ast.Name) and it.id in derived:
+                out.append(st)
+    return out
+
+
+def check_fold(ctx: Ctx, f: FuncInfo, what: str) -> None:
+    loops = _fold_loops(f)
+    if len(loops) != 1:
+        # comprehension forms: every element is visited by construction when there is no filter
+        rets = [st for st in f.body if isinstance(st, ast.Return)]
+        if not loops and len(rets) == 1 and not any(isinstance(n, (ast.For, ast.While)) for n in walk_no_nested(f.node)):
+            comps = [n for n in ast.walk(rets[0]) if isinstance(n, (ast.ListComp, ast.GeneratorExp, ast.SetComp))]
+            if comps and all(not g.ifs for c in comps for g in c.generators) and any(isinstance(c.generators[0].iter, ast.Name) and c.generators[0].iter.id in f.params for c in comps):
+                ctx.ok("C16-W6", f.where, f"{what}: a comprehension over the whole argument without a filter", rets[0], f)
+                return
+        raise AnalysisError(f"{f.where}: accumulation loop over the argument not recognised ({len(loops)} candidate loops)")
+    lp = loops[0]
+    if lp.orelse:
+        raise AnalysisError(f"{f.where}: loop has an else clause")
+    # leaving the loop early drops the elements that come later: the language then depends on the order of the basis
+    def scan(stmts, in_nested_loop):
+        for st in stmts:
+            if isinstance(st, (ast.FunctionDef, ast.AsyncFunctionDef, ast.ClassDef)):
+                continue
+            if isinstance(st, ast.Return):
+                return ("return", st)
+            if isinstance(st, ast.Break) and not in_nested_loop:
+                return ("break", st)
+            if isinstance(st, ast.Continue) and not in_nested_loop:
+                return ("continue", st)
+            for field in ("body", "orelse", "finalbody", "handlers"):
+                sub = getattr(st, field, None)
+                if sub:
+                    if field == "handlers":
+                        for h in sub:
+                            r = scan(h.body, in_nested_loop)
+                            if r:
+                                return r
+                        continue
+                    r = scan(sub, in_nested_loop or isinstance(st, (ast.For, ast.While)))
+                    if r:
+                        return r
+        return None
+    early = scan(lp.body, False)
+    if early and early[0] in ("break", "return"):
+        ctx.violation("C16-W6", f, early[1], f"{what}: the loop over the argument can be left early (`{early[0]}`), so elements listed later contribute nothing and the verdict depends on the order of the basis")
+        return
+    if early:
+        raise AnalysisError(f"{f.where}: an element can be skipped (`continue` at line {early[1].lineno}); whether its contribution is empty is not decided")
+    # the accumulator: acc.extend(E) / acc += E / acc = acc.union(E) / acc = acc | E, and it is what the function returns
+    rets = [st for st in f.body if isinstance(st, ast.Return)]
+    if len(rets) != 1 or not isinstance(rets[0].value, ast.Name):
+        raise AnalysisError(f"{f.where}: the accumulated value is not returned by name")
+    acc = rets[0].value.id
+    kinds = []
+    for n in walk_no_nested(lp):
+        if isinstance(n, ast.Expr) and isinstance(n.value, ast.Call) and isinstance(n.value.func, ast.Attribute) and isinstance(n.value.func.value, ast.Name) and n.value.func.value.id == acc:
+            kinds.append((n.value.func.attr, n))
+        elif isinstance(n, ast.AugAssign) and isinstance(n.target, ast.Name) and n.target.id == acc:
+            kinds.append(({ast.Add: "+=", ast.BitOr: "|=", ast.BitAnd: "&=", ast.Sub: "-="}.get(type(n.op), "aug?"), n))
+        elif isinstance(n, ast.Assign) and len(n.targets) == 1 and isinstance(n.targets[0], ast.Name) and n.targets[0].id == acc:
+            v = n.value
+            if isinstance(v, ast.Call) and isinstance(v.func, ast.Attribute) and isinstance(v.func.value, ast.Name) and v.func.value.id == acc:
+                kinds.append((v.func.attr, n))
+            elif isinstance(v, ast.BinOp) and isinstance(v.left, ast.Name) and v.left.id == acc:
+                kinds.append(({ast.Add: "+", ast.BitOr: "|", ast.BitAnd: "&", ast.Sub: "-"}.get(type(v.op), "bin?"), n))
+            else:
+                kinds.append(("rebind", n))
+    if len(kinds) != 1:
+        raise AnalysisError(f"{f.where}: {len(kinds)} updates of `{acc}` in the loop; accumulation not recognised")
+    kind, node = kinds[0]
+    if kind in ("extend", "update", "+=", "|=", "union", "|", "+"):
+        ctx.ok("C16-W6", f.where, f"{what}: every element of the argument is visited and its contribution is joined (`{kind}`) to the result", node, f)
+    elif kind in ("intersection", "&", "&=", "difference", "-", "-=", "intersection_update", "difference_update"):
+        ctx.violation("C16-W6", f, node, f"{what}: contributions are combined with `{kind}`, not joined: the result is not the union over the basis elements")
+    else:
+        raise AnalysisError(f"{f.where}: update `{kind}` of the accumulator not recognised")
+
+
+def rule_w6(ctx: Ctx) -> None:
+    for name, what in (("pinwords_for_basis", "pin words of a basis = the pin words of every element"),
+                       ("make_dfa_for_basis_from_pinwords", "automaton of a basis = union of the automata of every pin word"),
+                       ("make_dfa_for_basis_from_db", "automaton of a basis = union of the stored automata of every element")):
+        f = ctx.repo.need_method("PinWords", name)
+        ctx.run(check_fold, ctx, f, what)
+
+
+_OLD_RUN_W6 = run
+
+
+def run(ctx: Ctx) -> None:  # noqa: F811
+    _OLD_RUN_W6(ctx)
+    ctx.run(rule_w6, ctx)
+
+
+FLOORS["C16-W6"] = 3
